@@ -106,6 +106,19 @@ theorem ply_roundtrip_binary_bytes_closed [BEq α] [LawfulBEq α] (c : Coding α
   exact ply_roundtrip_binary_bytes c cfg m bytes hf hwf h hpoint hsize hidx huri (claimedOf cfg m)
     (ply_claim_ok_from_guard c cfg m body hbody hg)
 
+/-- the DEFAULT writer (`ply.Write`, write.go), both binary encodings, every well-formed mesh: the closed round trip,
+with the guard evaluated on the writers the default configuration fires for this mesh's attributes (default groups for
+Position / Normal / Color / FDC / Opacity / Scale / Rotation present in the mesh, `s t` for a point cloud's TexCoord,
+`name` / `name_k` floats for everything else) -/
+theorem ply_roundtrip_binary_bytes_default_closed [BEq α] [LawfulBEq α] (c : Coding α) (f : Format) (m : MeshVal α)
+    (bytes : Bytes) (hf : f ≠ .ascii) (hwf : m.WF = true) (h : writeMesh c (defaultWriter f) m = .ok bytes)
+    (hg : claimGuard (selectWriters (defaultWriter f) m) = true)
+    (hpoint : m.topo = .point → m.indices = (List.range m.attrLen).map Int.ofNat)
+    (hsize : m.attrLen ≤ 2 ^ 31) (hidx : m.indices.length < 2 ^ 63)
+    (huri : ∀ u, m.texURI = some u → CommentOK (nm "TextureFile " ++ u)) :
+    ∃ back, readMesh c defaultReader bytes = .ok back ∧ RoundTrips c (defaultWriter f) m back = true :=
+  ply_roundtrip_binary_bytes_closed c (defaultWriter f) m bytes hf hwf h hg hpoint hsize hidx huri
+
 /-- the parsed-header form (everything `MeshReader.Read` does after `ReadHeader`), closed -/
 theorem ply_roundtrip_binary_closed [BEq α] [LawfulBEq α] (c : Coding α) (cfg : WriterCfg) (m : MeshVal α) (body : Bytes)
     (hf : cfg.format ≠ .ascii) (hwf : m.WF = true) (h : writeBody c cfg m = .ok body)
